@@ -39,7 +39,7 @@ func payload(t *rapid.T, big bool) string {
 		}
 		return string(b)
 	default:
-		n := rapid.SampledFrom([]int{4095, 4096, 4097, 16384, 65535, 65536, 70000}).Draw(t, "pbig")
+		n := rapid.SampledFrom([]int{4095, 4096, 4097, 16384, 65535, 65536, 70000, 131072, 131073, 270000}).Draw(t, "pbig")
 		b := make([]byte, n)
 		seed := rapid.Byte().Draw(t, "pseed")
 		for i := range b {
@@ -120,6 +120,12 @@ func value(t *rapid.T, o Opts, depth int) resp.Value {
 		v = resp.Value{T: '(', S: rapid.StringMatching(`-?[0-9]{1,40}`).Draw(t, "bignum")}
 	case '*', '~', '>', '%':
 		n := rapid.IntRange(0, 5).Draw(t, "n")
+		eo, ed := o, depth+1
+		if o.Big && rapid.IntRange(0, 11).Draw(t, "wide") == 0 {
+			// a wide aggregate of small scalars: decoders grow their element slices in steps (64, 128, ...)
+			n = rapid.SampledFrom([]int{63, 64, 65, 66, 127, 128, 129, 200}).Draw(t, "wideN")
+			eo.Big, eo.Attrs, ed = false, false, o.MaxDepth
+		}
 		if ty == '>' && n == 0 {
 			n = 1
 		}
@@ -128,7 +134,7 @@ func value(t *rapid.T, o Opts, depth int) resp.Value {
 		}
 		v = resp.Value{T: ty, A: make([]resp.Value, 0, n)}
 		for i := 0; i < n; i++ {
-			v.A = append(v.A, value(t, o, depth+1))
+			v.A = append(v.A, value(t, eo, ed))
 		}
 		if ty == '>' {
 			// a push starts with its kind; keep a kind the client does not act on when nested
